@@ -560,6 +560,9 @@ public:
             -> static_vector& requires(is_assignable_v<reference, const_reference>) {
                 // Nothing to assert: size of other cannot exceed capacity because both
                 // vectors have the same type
+                if (this == &other) {
+                    return *this;
+                }
                 clear();
                 insert(begin(), other.begin(), other.end());
                 return *this;
@@ -571,6 +574,9 @@ public:
             -> static_vector& requires(is_assignable_v<reference, reference>) {
                 // Nothing to assert: size of other cannot exceed capacity because both
                 // vectors have the same type
+                if (this == &other) {
+                    return *this;
+                }
                 clear();
                 move_insert(begin(), other.begin(), other.end());
                 return *this;
